@@ -64,6 +64,9 @@ func main() {
 	}
 
 	t0 := time.Now()
+	// VERIF_PARTS (debugging aid only; registered commands never set it) restricts the run to some parts
+	parts := os.Getenv("VERIF_PARTS")
+	part := func(p string) bool { return parts == "" || strings.Contains(parts, p) }
 	// ---- E4 histories ----
 	depth := 5
 	if r.Thorough() {
@@ -77,6 +80,9 @@ func main() {
 	nChunks := (len(seqs) + chunk - 1) / chunk
 	for _, rs := range reqs {
 		rs := rs
+		if !part("hist") {
+			break
+		}
 		enum.Parallel(nChunks, r.OutOfTime, func(ci int) {
 			s := newSite(newWorld(false))
 			local := map[string]bool{}
@@ -134,7 +140,7 @@ func main() {
 	}
 	bounds := map[string]int{}
 	for _, p := range plans {
-		if r.OutOfTime() {
+		if r.OutOfTime() || !part("sched") {
 			break
 		}
 		m, err := sched.RunSharded(p.name, p.pb, 0)
@@ -153,7 +159,7 @@ func main() {
 
 	r.Set("t_schedules_s", time.Since(t0).Seconds())
 	// ---- R: free-running race pass ----
-	if bin := os.Getenv("VERIF_RACE_BIN"); bin != "" {
+	if bin := os.Getenv("VERIF_RACE_BIN"); bin != "" && part("race") {
 		for _, procs := range []string{"1", "4", "16"} {
 			cmd := exec.Command(bin, "racepass")
 			cmd.Env = append(os.Environ(), "GOMAXPROCS="+procs, "GORACE=halt_on_error=0 exitcode=66")
@@ -186,6 +192,10 @@ func main() {
 	r.Assume("interleavings at statement granularity of the instrumented files (props/c09/overlay.conf); code of dependencies and the standard library runs atomically between points",
 		"map iteration order inside instrumented files is fixed (sorted) during schedule exploration",
 		"reference = the same request served alone by a fresh handler")
+	if parts != "" {
+		r.Nontrivial(2)
+		r.Finish("partial debugging run: "+parts, false)
+	}
 	r.Finish("E4: every sequence (with repetition) of the six per-request accessors up to the stated depth on each of the request kinds, checked step by step against the memo-table model; E3: every schedule of the scenario's 2-3 request threads with at most the stated number of preemptions, each thread's observation log compared with the log of the same request served alone; non-trivial = distinct (request kind, memo state, counters) states reached plus executed schedules (each schedule is distinct by construction of the DFS)", true)
 }
 
